@@ -165,3 +165,7 @@ mod tests {
         }
     ];
 }
+
+#[cfg(kani)]
+#[path = "/verif/kani/std_format_int.rs"]
+mod kani_verif;
